@@ -49,7 +49,7 @@ for d in sorted(glob.glob(os.path.join(V, "seeded", "C*-[A-Z]"))):
             verdicts[p] = {"caught": r["exit"] == 1, "exit": r["exit"], "findings": r["findings"][:2]}
     meta = {
         "id": name,
-        "round": {"A": 1, "B": 1, "C": 2, "D": 2}.get(name[-1], 3),
+        "round": {"A": 1, "B": 1, "C": 2, "D": 2}.get(name[-1], 4 if prop in ("C07", "C08", "C09", "C13", "C17", "C20") else 3),
         "breaks_property": prop,
         "title": title,
         "files_changed": files,
